@@ -4,7 +4,7 @@ import itertools
 from common import proto
 from common.framework import Failure, ImplError, Stream
 from props import _log
-from props._log import ALPHABET, BAD_VERB, NUM, OWN_ERROR, WRAP_ERROR, baseline_key, is_call, own_error, parse_call
+from props._log import ALPHABET, BAD_VERB, NUM, UNSTABLE, baseline_key, is_call, own_error, parse_call
 
 ID = 'C20'
 LEAN_MODULES = ['Proofs.C20']
@@ -34,17 +34,25 @@ ASSUMPTIONS = [
     'name of logging (verbose="debug", 10, "nonsense") is silently ignored before set_up and rejected by the wrapper (TypeError / '
     'AttributeError from set_level, before the body runs) once a console handler exists, so THERE the result depends on the '
     'logger state (C20.bad_verbose_depends_on_setup). Modelled (Op.callBad) and compared step by step; the instance check applies '
-    'only the level clause to such calls (level restored - C20.bad_verbose_level_untouched), no claim about their result',
-    'console visibility is observed through the records "STARTED: <sift>" (INFO) and "Input data size" (DEBUG) '
-    'that sift_logger emits at the start of every decorated call',
+    'makes no claim about such calls (level restored - C20.bad_verbose_level_untouched - is kept as a mechanism-level observation)',
+    '"the override is in force for that call" is observed WITHOUT reference to any log wording: the signal handed to the sift is a '
+    'harness-owned ndarray subclass whose __array_ufunc__ samples emd.logger.get_level() at every numpy operation the sift applies '
+    'to it (values are computed on plain views; the untouched-logger reference uses the same array type). A sift that never '
+    'operates on the caller\'s array object gives no sample and no claim (tag no-sample-inside-calls)',
+    'what a call does as such (returns, raises ValueError / EMDSiftCovergeError, is interrupted) is read off the same call under an '
+    'untouched logger without verbose; a seeded ensemble variant whose two seeded reference runs differ is skipped and tagged',
+    'set_up() without a level, set_level before set_up and disable / enable: the level they give is taken as observed; the claim is '
+    'that the same logger operations give the same levels with and without decorated calls in between (call-free run in a sibling child)',
+    '"raises" includes BaseException subclasses: KeyboardInterrupt / SystemExit raised from inside the sift (modes i / q)',
 ]
 RULE = ('exhaustive: every history of length D (quick 3, thorough 4; all shorter ones are its prefixes) over the 21 operations '
         '%s from both the never-set-up and the set-up state, each root-to-leaf history ending in its own forked process; '
         'random: histories of length 4..30 in one fresh forked child each over the same operations plus set_up with a log file, '
         'verbose omitted, non-convergence as the raising call, the signal passed by keyword (sift(X=x)), undocumented verbosity '
         'values ("debug", 10, "nonsense"), and the decorated variants mask_sift / ensemble_sift / '
-        'complete_ensemble_sift (seeded). Compared per step: get_level(), error kind, whether INFO/DEBUG records of the call '
-        'reached the console, output digest of every returning call. Non-trivial: the history contains a call with an '
+        'complete_ensemble_sift (seeded), and calls left through KeyboardInterrupt / SystemExit raised inside the sift. '
+        'Compared per step: get_level(), error kind (as under an untouched logger), console level sampled inside the call against the '
+        'model\'s shown-record flags, output digest (all returned arrays) of every returning call. Non-trivial: the history contains a call with an '
         'explicit verbosity made after set_up under a different standing level, or a raising call with an explicit verbosity.'
         % (ALPHABET,))
 
@@ -58,99 +66,138 @@ def model_op(start, toks, baseline=None):
                                'ops': ','.join(_log.model_token(t, baseline) for t in toks) or '-'})
 
 
+def _outcome(err, dig):
+    return dig if err is None else 'error:' + str(err)
+
+
 def compare_history(start, toks, recs, baseline, r):
     if not r.ok or len(r.vecs) != 4:
         return 'model answered %s' % r.raw[:200]
     mlev, mres, minfo, mdbg = [[int(v) for v in (x or [])] for x in r.vecs]
     if not (len(mlev) == len(mres) == len(minfo) == len(mdbg) == len(toks)):
         return 'model trajectory has wrong length: %s' % r.raw[:200]
+    disabled = False
     for i, (tok, rec) in enumerate(zip(toks, recs)):
-        lvl, err, dig, info, dbg = rec
+        lvl, err, dig, info, dbg, during = rec
         where = 'start=%d history=%s step %d (%s)' % (start, ','.join(toks), i, tok)
         if lvl != mlev[i]:
             return '%s: get_level() impl=%s model=%s' % (where, lvl, mlev[i])
-        exp_err = {0: None, 1: None, 2: own_error(tok, baseline) if is_call(tok) else '?', 3: 'KeyError',
-                   4: WRAP_ERROR.get(parse_call(tok)[0]) if is_call(tok) else '?'}[mres[i]]
-        if err != exp_err:
+        if not is_call(tok):
+            if err is not None:
+                return '%s: logger operation raised %s' % (where, err)
+            disabled = (tok == 'dis') or (disabled and tok != 'en')
+            continue
+        ref = baseline.get(baseline_key(tok))
+        if mres[i] == 4:
+            # an undocumented verbosity rejected by the wrapper once a console exists: any error will do (outside the quantifier)
+            if err is None:
+                return '%s: the model\'s wrapper rejects this verbosity, the implementation returned' % where
+            continue
+        if mres[i] == 3:
+            if err is None:
+                return '%s: the (pinned) model raises KeyError, the implementation returned' % where
+            continue
+        exp_err = own_error(tok, baseline) if mres[i] == 2 else None
+        if ref != UNSTABLE and err != exp_err:
             return '%s: error impl=%s model=%s' % (where, err, exp_err)
-        if is_call(tok):
-            if parse_call(tok)[1] == 'k' and mres[i] == 2:
-                # sift_logger raised between its INFO record and its DEBUG record: only the former is comparable
-                if info != minfo[i]:
-                    return '%s: console record (info) impl=%s model=%s' % (where, info, minfo[i])
-            elif (info, dbg) != (minfo[i], mdbg[i]):
-                return '%s: console records (info,debug) impl=%s model=%s' % (where, (info, dbg), (minfo[i], mdbg[i]))
-            if mres[i] == 1 and dig != baseline.get(baseline_key(tok)):
-                return '%s: output digest %s differs from the reference %s' % (where, dig, baseline.get(baseline_key(tok)))
+        # the console level in force while the body ran (sampled by the probe array inside the call) against the model's
+        # "records of level INFO / DEBUG are shown" - only where a console exists and logging is enabled
+        if during and not disabled and all(d >= 0 for d in during):
+            for d in during:
+                if (int(d <= 20), int(d <= 10)) != (minfo[i], mdbg[i]):
+                    return '%s: console level during the call %s, model shows (INFO,DEBUG) records %s' % (where, during, (minfo[i], mdbg[i]))
+        if mres[i] == 1 and ref != UNSTABLE and dig != ref:
+            return '%s: output digest %s differs from the reference %s' % (where, dig, ref)
     return None
 
 
-def check_history(start, toks, recs, lvl0, baseline):
-    """The property's own words on one executed history. Returns {kind: Failure}."""
+def check_history(start, toks, recs, lvl0, baseline, free=None):
+    """The property's own words on one executed history. Returns {kind: Failure}.
+
+    `free`: [(level, error)] of the same logger operations executed WITHOUT any decorated call in between (None: not available).
+    What set_up() without a level, set_level before set_up, disable / enable do to get_level() is not stated by the property:
+    those levels are taken as observed; what IS stated - a call leaves nothing behind - is checked against `free`."""
     fs = {}
 
-    def fail(kind, detail):
-        fs.setdefault(kind, Failure(kind, 'start=%s history=%s: %s' % ('set-up' if start else 'never-set-up', ','.join(toks), detail)))
+    def fail(kind, detail, literal=True):
+        fs.setdefault(kind, Failure(kind, 'start=%s history=%s: %s' % ('set-up' if start else 'never-set-up', ','.join(toks), detail),
+                                    literal=literal))
 
-    exp0 = 20 if start else -1
-    if lvl0 != exp0:
-        fail('start-state-wrong', 'get_level() at start is %s, expected %s' % (lvl0, exp0))
     before = lvl0
     disabled = False
+    nfree = 0              # logger operations seen so far
+    comparable = free is not None
     for i, (tok, rec) in enumerate(zip(toks, recs)):
-        lvl, err, dig, info, dbg = rec
+        lvl, err, dig, info, dbg, during = rec
         p = tok.split(':')
         pre = ':before-set_up' if before == -1 else ''
         if err == 'ChildDied':
-            fail('child-died', 'step %d (%s)' % (i, tok))
+            fail('child-died', 'step %d (%s)' % (i, tok), literal=False)
             return fs
         if is_call(tok):
             v, mode, fn = parse_call(tok)
-            if lvl != before:
-                fail('level-not-restored:%s%s' % ('returns' if mode == 'r' else 'raises', pre),
-                     'step %d (%s): console level %s before the call, %s after' % (i, tok, before, lvl))
+            returns = own_error(tok, baseline) is None
             if v in BAD_VERB:
+                # a verbosity outside the documented values (outside the quantifier): no claim, the level clause is kept as a
+                # mechanism-level observation; later logger levels are no longer compared with the call-free run
+                if lvl != before:
+                    fail('level-not-restored:undocumented-verbosity', 'step %d (%s): console level %s before the call, %s after'
+                         % (i, tok, before, lvl), literal=False)
+                comparable = False
                 before = lvl
-                continue        # a verbosity outside the documented values: only the level clause applies (see ASSUMPTIONS)
-            if mode == 'k':
-                # logging code reading the inputs: whatever the call does, it must do the same in every logger state
-                got = dig if err is None else 'error:' + str(err)
-                if got != baseline.get('k'):
-                    fail('result-depends-on-logger:keyword-signal', 'step %d (%s): %s, under an untouched logger %s'
-                         % (i, tok, got, baseline.get('k')))
-            elif mode == 'r':
-                if err is not None:
-                    fail('call-fails:%s%s' % (err, pre), 'step %d (%s) raised %s' % (i, tok, err))
-                elif dig != baseline.get(fn):
-                    fail('result-depends-on-logger', 'step %d (%s): digest %s, reference (untouched logger, no verbose) %s'
-                         % (i, tok, dig, baseline.get(fn)))
-            elif err != OWN_ERROR[mode]:
-                fail('call-raises-wrong-error:%s%s' % (err, pre), 'step %d (%s): expected its own %s' % (i, tok, OWN_ERROR[mode]))
-            # the override is in force for that call (observable only once a console exists and logging is enabled)
-            if before == -1 or disabled:
-                exp = (0, 0)
-            else:
+                continue
+            if lvl != before:
+                fail('level-not-restored:%s%s' % ('returns' if err is None else 'raises', pre),
+                     'step %d (%s): console level %s before the call, %s after (%s)' % (i, tok, before, lvl, _outcome(err, dig)))
+            ref = baseline.get(baseline_key(tok))
+            got = _outcome(err, dig)
+            if ref is not None and ref != UNSTABLE and got != ref:
+                # whatever the call does as such (return, ValueError, EMDSiftCovergeError, KeyboardInterrupt, ...), it must do
+                # the same - and return the same numbers - in every logger state and for every verbosity
+                what = 'step %d (%s): %s, under an untouched logger without verbose %s' % (i, tok, got, ref)
+                if mode == 'k':
+                    fail('result-depends-on-logger:keyword-signal', what)
+                elif not returns:
+                    fail('call-raises-wrong-error:%s%s' % (err, pre), what)
+                elif err is not None:
+                    fail('call-fails:%s%s' % (err, pre), what)
+                else:
+                    fail('result-depends-on-logger', what)
+            # the override is in force for that call: the console level sampled INSIDE the call (by the probe array, at every
+            # numpy operation on the signal) is the requested one - observable once a console exists
+            if before >= 0 and during:
                 eff = NUM[v] if v in NUM else before
-                exp = (int(eff <= 20), int(eff <= 10))
-            if mode == 'k' and err is not None:
-                exp, dbg = (exp[0], 0), 0          # sift_logger raised before its DEBUG record
-            if (info, dbg) != exp:
-                kind = 'console-output-while-silenced' if (before == -1 or disabled) else \
-                    ('override-not-in-force' if v in NUM else 'standing-level-not-in-force')
-                fail(kind, 'step %d (%s): level before %s, disabled=%s, (INFO,DEBUG) records shown %s expected %s'
-                     % (i, tok, before, disabled, (info, dbg), exp))
+                if any(d != eff for d in during):
+                    fail('override-not-in-force' if v in NUM else 'standing-level-not-in-force',
+                         'step %d (%s): console level before the call %s, sampled inside the call %s, expected %s'
+                         % (i, tok, before, during, eff))
+            if (before == -1 or disabled) and (info or dbg):
+                fail('console-output-while-silenced', 'step %d (%s): level before %s, disabled=%s, records of the call on the console'
+                     % (i, tok, before, disabled), literal=False)
         else:
-            if err is not None:
+            claim = not (p[0] == 'sl' and before == -1)     # set_level before set_up: the property says nothing (error or any level)
+            if err is not None and claim:
                 fail('logger-op-raises:%s:%s' % (p[0], err), 'step %d (%s)' % (i, tok))
-            if p[0] in ('su', 'suf'):
-                exp = NUM.get(p[1], 20)
-            elif p[0] == 'sl':
-                exp = -1 if before == -1 else NUM[p[1]]
-            else:
-                exp = before
-                disabled = (p[0] == 'dis')
-            if lvl != exp:
+            exp = None
+            if p[0] in ('su', 'suf') and p[1] in NUM:
+                exp = NUM[p[1]]
+            elif p[0] == 'sl' and before != -1:
+                exp = NUM[p[1]]
+            if exp is not None and err is None and lvl != exp:
                 fail('logger-op-wrong-level:' + p[0], 'step %d (%s): get_level() %s expected %s' % (i, tok, lvl, exp))
+            if p[0] == 'dis':
+                disabled = True
+            elif p[0] == 'en':
+                disabled = False
+            # a finished call leaves nothing behind: the logger operation gives the level it gives in the same sequence of
+            # logger operations without any call in between
+            if comparable and nfree < len(free):
+                flvl, ferr = free[nfree]
+                if ferr is None and err is None and flvl is not None and lvl != flvl:
+                    fail('call-changes-later-logger-state:' + p[0],
+                         'step %d (%s): get_level() %s, but %s when the same logger operations run without the calls in between'
+                         % (i, tok, lvl, flvl))
+            nfree += 1
         before = lvl
     return fs
 
@@ -182,6 +229,21 @@ def file_logging_active(toks):
     return False
 
 
+def _skip_tags(out):
+    if isinstance(out, ImplError):
+        return ['skipped:%s' % ('time-out' if out['error'] == 'Timeout' else 'child-failed')]
+    t = ['skipped:value-claim:stochastic-variant-not-reproducible:%s' % k for k, v in sorted(out.get('baseline', {}).items()) if v == UNSTABLE]
+    if 'free' not in out:
+        t.append('skipped:call-free-run-not-available')
+    sampled = False
+    for toks, recs in _log.leaves(out, []):
+        if any(is_call(tk) and rc[5] for tk, rc in zip(toks[-len(recs):], recs)):
+            sampled = True
+            break
+    t.append('console-level-sampled-inside-calls' if sampled else 'no-sample-inside-calls')
+    return t
+
+
 class _HistStream(Stream):
     timeout_s = 600
 
@@ -194,6 +256,8 @@ class _HistStream(Stream):
         return [model_op(case['start'], toks, out['baseline']) for toks, _ in _log.leaves(out, case['prefix'])]
 
     def compare(self, case, out, results):
+        if isinstance(out, ImplError) and out['error'] == 'Timeout':
+            return 'skip:time-out (termination is not this property\'s subject)'
         if isinstance(out, ImplError):
             return 'history could not be run: %s %s' % (out['error'], out['msg'][-300:])
         if not out['fresh']:
@@ -206,10 +270,14 @@ class _HistStream(Stream):
 
     def holds(self, case, out):
         if isinstance(out, ImplError):
-            return [Failure('history-not-runnable:' + out['error'], out['msg'])]
+            # no statement of the property was evaluated: a time-out is skipped (tagged), a dead child is mechanism-level
+            return [] if out['error'] == 'Timeout' else [Failure('history-not-runnable:' + out['error'], out['msg'], literal=False)]
         fs = {}
+        if case['start'] and out['lvl0'] < 0:
+            fs['start-state-wrong'] = Failure('start-state-wrong', 'get_level() after set_up() is %s' % out['lvl0'], literal=False)
         for toks, recs in _log.leaves(out, case['prefix']):
-            for k, f in check_history(case['start'], toks, recs, out['lvl0'], out['baseline']).items():
+            free = _log.free_levels(out, toks)
+            for k, f in check_history(case['start'], toks, recs, out['lvl0'], out['baseline'], free).items():
                 fs.setdefault(k, f)
         if out.get('stderr_logging_error'):
             fs.setdefault('logging-error-on-stderr', Failure('logging-error-on-stderr', 'prefix %s' % case['prefix'], literal=False))
@@ -233,7 +301,7 @@ class HistExhaustive(_HistStream):
         t = ['start=%s' % ('set-up' if case['start'] else 'never-set-up'), 'first=' + case['prefix'][0].split(':')[0]]
         if not isinstance(out, ImplError):
             t.append('leaf-histories-per-case=%d' % sum(1 for _ in _log.leaves(out, case['prefix'])))
-        return t
+        return t + _skip_tags(out)
 
     def nontrivial(self, case, out):
         return not isinstance(out, ImplError)
@@ -248,7 +316,8 @@ class HistExhaustive(_HistStream):
 
 
 EXTRA = (['su:E', 'sl:E', 'sl:E', 'c:E:r', 'c:E:x'] + ['suf:' + l for l in _log.VERB] + ['c:O:r', 'c:O:x', 'c:O:y'] + ['c:%s:y' % v for v in _log.VERB] +
-         ['c:B:r', 'c:B:x', 'c:T:r', 'c:U:r', 'c:U:x', 'c:B:k'] + ['c:%s:k' % v for v in ('O', 'N', 'D', 'W')])
+         ['c:B:r', 'c:B:x', 'c:T:r', 'c:U:r', 'c:U:x', 'c:B:k'] + ['c:%s:k' % v for v in ('O', 'N', 'D', 'W')] +
+         ['c:%s:i' % v for v in ('N', 'C', 'W', 'I', 'D')] + ['c:%s:q' % v for v in ('O', 'C', 'I', 'D')] + ['c:D:i:m', 'c:W:q:m'])
 SLOW = (['c:%s:r:%s' % (v, f) for v in ('N', 'O', 'W', 'D') for f in 'meca'] + ['c:D:x:m', 'c:I:x:e', 'c:C:x:c', 'c:D:y:m'] +
         ['c:%s:r:a' % v for v in ('N', 'O', 'C', 'I', 'D')])
 
@@ -282,6 +351,14 @@ class HistRandom(_HistStream):
             {'start': 0, 'prefix': ['c:B:r', 'c:T:x', 'c:U:r', 'su:W', 'c:B:r', 'c:T:r', 'c:U:x', 'c:B:k', 'dis', 'c:B:r', 'en', 'sl:D',
                                     'c:U:r', 'c:D:r'], 'depth': 0, 'sig': 2},
             {'start': 1, 'prefix': ['c:B:r', 'c:B:x', 'sl:C', 'c:T:r', 'c:N:r'], 'depth': 0, 'sig': 0},
+            # "back in place when the call returns or RAISES": the call is left through KeyboardInterrupt (Ctrl-C during a long
+            # verbose sift) / SystemExit, raised from inside the sift by the harness-owned signal array
+            {'start': 1, 'prefix': ['c:D:i', 'c:C:q', 'sl:W', 'c:D:i', 'c:I:q', 'c:D:i:m', 'c:N:i', 'c:O:r'], 'depth': 0, 'sig': 1},
+            {'start': 0, 'prefix': ['c:D:i', 'c:W:q', 'su:W', 'c:D:q', 'c:C:i', 'dis', 'c:I:i', 'en', 'suf:C', 'c:D:i', 'c:W:q:m'],
+             'depth': 0, 'sig': 2},
+            # an override requested BEFORE set_up must leave nothing behind: a later set_up() comes up as it does without the call
+            {'start': 0, 'prefix': ['c:D:r', 'su:N', 'c:O:r'], 'depth': 0, 'sig': 0},
+            {'start': 0, 'prefix': ['c:C:x', 'sl:W', 'c:W:r', 'suf:N', 'c:D:r', 'su:N'], 'depth': 0, 'sig': 3},
         ]
 
     def generate(self, rng, tier):
@@ -301,7 +378,8 @@ class HistRandom(_HistStream):
              'len=%s' % ('<=8' if len(toks) <= 8 else '9-30' if len(toks) <= 30 else '>30')]
         if any(x.startswith('suf') for x in toks):
             t.append('log-to-file')
-        for m, lab in (('r', 'returns'), ('x', 'raises-shape'), ('y', 'raises-no-convergence')):
+        for m, lab in (('r', 'returns'), ('x', 'raises-shape'), ('y', 'raises-no-convergence'), ('i', 'KeyboardInterrupt'),
+                       ('q', 'SystemExit')):
             if any(is_call(x) and parse_call(x)[1] == m and parse_call(x)[0] in NUM for x in toks):
                 t.append('override+' + lab)
         for f, lab in (('m', 'mask_sift'), ('e', 'ensemble_sift'), ('c', 'complete_ensemble_sift'), ('a', 'array-kwargs')):
@@ -313,7 +391,7 @@ class HistRandom(_HistStream):
             t.append('undocumented-verbosity')
         if any(is_call(x) and parse_call(x)[1] == 'k' for x in toks):
             t.append('signal-by-keyword')
-        return t
+        return t + _skip_tags(out)
 
     def nontrivial(self, case, out):
         return not isinstance(out, ImplError) and nontrivial_history(case['start'], case['prefix'])
